@@ -138,7 +138,14 @@ class Resolver:
         if isinstance(t, ast.Call):
             return self._typeof_call(t, fn, events, depth)
         if isinstance(t, ast.Subscript):
-            return self.elem_type(self.typeof(t.value, fn, events, depth + 1), depth + 1)
+            base = self.typeof(t.value, fn, events, depth + 1)
+            out = set()
+            for b in base:
+                c = self.p.classes.get(b)
+                gi = self.p.lookup_method(c, "__getitem__") if c is not None else None
+                if gi is not None:
+                    out |= self.ret_type(gi, depth + 1)  # obj[key] is obj.__getitem__(key)
+            return out or self.elem_type(base, depth + 1)
         if isinstance(t, ast.Await):
             return self.typeof(t.value, fn, events, depth + 1)
         if isinstance(t, ast.Constant):
